@@ -134,7 +134,9 @@ def reference(nodes, rows, edge_order, iterations, phi):
 class C17(Prop):
     pid = "C17"
     rule = ("cover-labelled networks of 2-6 motifs from {K2,K3,K4,C4,C5,diamond,chorded pentagon} glued at single vertices into trees (35%) and "
-            "loopy arrangements (65%), motifs pairwise sharing at most one vertex, arbitrary motif ids and edge order; exact mode: 1-3 sweeps with "
+            "loopy arrangements (65%), motifs pairwise sharing at most one vertex, arbitrary motif ids (also from 1000 up) and edge order, topology "
+            "keys in the labels that are sizes or codes, isolated vertices; double-precision ladder phi = 0, 0.6, 0.99, 1 at 5 and 12 sweeps "
+            "(range, zero, monotone); exact mode: 1-3 sweeps with "
             "rational phi on a grid including 0 (the real code then computes in exact rationals); float mode: the default 25 sweeps compared to "
             "1e-9; query histories on one object versus fresh objects; the real label parser is checked against the generating structure; "
             "non-trivial = loopy network or at least 3 motifs; distinct = distinct case")
@@ -145,6 +147,22 @@ class C17(Prop):
     budgets = {"quick": 24, "thorough": 400}
     recheck = {"quick": 3, "thorough": 10}
     search_budget = {"quick": 80, "thorough": 500}
+
+    def exhaustive(self, tier):
+        """two fixed networks that every run sees: (a) a 4-clique covered by six single edges plus a triangle - messages square on
+        every sweep and underflow at phi = 1 in double precision; (b) a vertex in three motifs one of which (a triangle) gives it
+        two neighbours with smaller labels than another motif's neighbour, on a loopy cover"""
+        def net(motifs, nodes):
+            rows = []
+            for mid, (verts, edges) in enumerate(motifs):
+                for a, b in edges:
+                    rows.append([a, b, {"verts": list(verts), "edges": [list(e) for e in edges], "id": mid}])
+            return {"nodes": nodes, "edges": rows, "iterations": 2, "phis": ["0", "1/2", "3/4", "1"], "query_order": [2, 0, 3, 1, 2],
+                    "loopy": True}
+        k4 = [((a, b), [(a, b)]) for a in range(4) for b in range(a + 1, 4)]
+        yield net(k4 + [((3, 4, 5), [(3, 4), (4, 5), (3, 5)])], list(range(6)))
+        yield net([((0, 1, 2), [(0, 1), (1, 2), (0, 2)]), ((0, 3), [(0, 3)]), ((3, 1), [(3, 1)]), ((0, 4), [(0, 4)]),
+                   ((4, 2), [(4, 2)])], list(range(5)))
 
     def gen(self, rng, i, tier):
         loopy = rng.random() < 0.65
